@@ -51,7 +51,7 @@ def evaluate(d, with_tests=True):
 def main(argv):
     cmd = argv[0] if argv else "eval"
     root = argv[1] if len(argv) > 1 else "/tmp/refactors"
-    only = set(argv[2:])
+    only = {a for a in argv[2:] if not a.startswith("--")}
     try:
         if cmd in ("eval", "import"):
             os.makedirs(DEST, exist_ok=True)
